@@ -14,9 +14,10 @@ Mirrors typer/src/typer/globals.rs:
 * `parse_rootdefinition_constantbuffer` — the same for the single name of a `cbuffer`.
 
 The statements mirrored here are fingerprinted by `Gen.SlotCompile.compileShape` (`langSlotFreshPerDeclarator`,
-`annotationLoopShape`, `attributeOverridesAfterAnnotations`, `attributeFoldLaterWins`, `cbufferAnnotationLoopShape`, …).
-Rejections of the type checker are explicit `FrontErr` results.  Attributes are modelled as far as they are well
-formed (`rssl::bind_group(g)`, `rssl::bindless`, `vk::binding(i[, g])` with constant arguments).
+`annotationLoopShape`, `attributeOverridesAfterAnnotations`, `staticSamplerNeedsExtern`, `attributeFoldLaterWins`,
+`storageClassLoopShape`, `cbufferAnnotationLoopShape`).
+Rejections of the type checker are explicit `FrontErr` results (ill-formed attributes included: wrong argument count,
+unknown name, an argument that is no `u32` constant).  `parse_globaltype`'s storage-class loop is `storageLoop`.
 -/
 namespace RsslVerif.Model.SlotsFront
 open RsslVerif.Gen.SlotTables RsslVerif.Model.Slots
@@ -43,11 +44,21 @@ inductive Annotation where
   | semantic
   deriving DecidableEq, Repr, Inhabited
 
-/-- the well-formed attributes `parse_attributes_for_global` understands -/
+/-- an attribute as `parse_attributes_for_global` classifies it -/
 inductive Attr where
+  /-- `[[rssl::bind_group(g)]]` -/
   | bindGroup (g : Nat)
+  /-- `[[rssl::bindless]]` -/
   | bindless
+  /-- `[[vk::binding(i)]]` / `[[vk::binding(i, g)]]` -/
   | vkBinding (i : Nat) (g : Option Nat)
+  /-- one of the three with a wrong number of arguments: `GlobalAttributeUnexpectedArgumentCount(leaf)` -/
+  | badCount (leaf : String)
+  /-- anything else: `GlobalAttributeUnknown(name)` (`name` = the leaf under `rssl::` / `vk::`, the first path segment
+      otherwise) -/
+  | unknown (name : String)
+  /-- an argument that does not evaluate to a `u32` constant: `ExpressionIsNotConstantExpression` -/
+  | notConstant
   deriving DecidableEq, Repr, Inhabited
 
 /-- `GlobalAttributeResult` -/
@@ -59,14 +70,13 @@ structure AttrResult where
 
 def AttrResult.empty : AttrResult := { indexOverride := none, groupOverride := none, bindless := false }
 
-/-- one iteration of `for attribute in attributes` -/
+/-- what a well-formed attribute writes into the result -/
 def attrStep (r : AttrResult) : Attr → AttrResult
   | .bindGroup g => { r with groupOverride := some g }
   | .bindless => { r with bindless := true }
   | .vkBinding i none => { r with indexOverride := some i }
   | .vkBinding i (some g) => { r with indexOverride := some i, groupOverride := some g }
-
-def parseAttributes (as : List Attr) : AttrResult := as.foldl attrStep AttrResult.empty
+  | _ => r
 
 inductive FrontErr where
   /-- `TyperError::InvalidRegisterType(used, expected, name.location)` -/
@@ -79,9 +89,50 @@ inductive FrontErr where
   | unexpectedSemantic (name : String)
   | staticSamplerUnexpectedBindingIndex (name : String)
   | staticSamplerUnexpectedStorageClass (name : String)
-  /-- `GlobalAttributeUnknown("bindless")` on a cbuffer -/
-  | cbufferBindless (name : String)
+  | attributeArgumentCount (leaf : String)
+  /-- `GlobalAttributeUnknown(name)`; also what `[[rssl::bindless]]` on a cbuffer gives (`name = "bindless"`) -/
+  | attributeUnknown (name : String)
+  | attributeNotConstant
+  /-- `ModifierConflict(new, .., current)`: "modifier '<new>' may not be used with '<current>'" -/
+  | modifierConflict (new current : String)
   deriving DecidableEq, Repr, Inhabited
+
+/-- `for attribute in attributes` of `parse_attributes_for_global`: the first ill-formed attribute aborts, a
+    well-formed one overwrites what an earlier one said -/
+def attrLoop : AttrResult → List Attr → Except FrontErr AttrResult
+  | r, [] => .ok r
+  | _, .badCount leaf :: _ => .error (.attributeArgumentCount leaf)
+  | _, .unknown name :: _ => .error (.attributeUnknown name)
+  | _, .notConstant :: _ => .error .attributeNotConstant
+  | r, a :: rest => attrLoop (attrStep r a) rest
+
+def parseAttributes (as : List Attr) : Except FrontErr AttrResult := attrLoop AttrResult.empty as
+
+/-- the storage-class keywords of a global's type (`parse_globaltype`) -/
+inductive StorageMod where
+  | extern
+  | static
+  | groupShared
+  deriving DecidableEq, Repr, Inhabited
+
+def StorageMod.keyword : StorageMod → String
+  | .extern => "extern"
+  | .static => "static"
+  | .groupShared => "groupshared"
+
+/-- the loop over the modifiers: the same keyword twice is accepted, two different ones are a conflict -/
+def storageLoop : Option StorageMod → List StorageMod → Except FrontErr (Option StorageMod)
+  | cur, [] => .ok cur
+  | none, m :: ms => storageLoop (some m) ms
+  | some c, m :: ms =>
+    if c = m then storageLoop (some c) ms else .error (.modifierConflict m.keyword c.keyword)
+
+/-- `global_storage…unwrap_or(GlobalStorage::Extern)`: is the storage class `Extern`? -/
+def isExternStorage (mods : List StorageMod) : Except FrontErr Bool :=
+  match storageLoop none mods with
+  | .error e => .error e
+  | .ok none => .ok true
+  | .ok (some m) => .ok (decide (m = .extern))
 
 /-- the `let index = if let Some(slot) = &register.slot { .. }` block: class check, then the index -/
 def registerIndex (expected : RegT) (name : String) (r : Register) : Except FrontErr (Option Nat) :=
@@ -165,16 +216,21 @@ def declaratorLoop {σ : Type} (expected : Option RegT) (isExtern : Bool) (attr 
     `base` = the object kind of the declaration's base type (`none`: not an object). -/
 def parseGlobalVariable {σ : Type} (attrs : List Attr) (base : Option ObjKind) (isExtern : Bool)
     (registry : List (GlobalVar σ)) (ds : List (Declarator σ)) : Except FrontErr (List (GlobalVar σ)) :=
-  declaratorLoop (base.bind registerType) isExtern (parseAttributes attrs) registry ds
+  match parseAttributes attrs with
+  | .error e => .error e
+  | .ok attr => declaratorLoop (base.bind registerType) isExtern attr registry ds
 
 /-- `parse_rootdefinition_constantbuffer` as far as binding goes: the `lang_binding` of the new cbuffer -/
 def parseConstantBuffer (name : String) (attrs : List Attr) (anns : List Annotation) : Except FrontErr LangBinding :=
-  let attr := parseAttributes attrs
-  match annotate (some .B) (.unexpectedRegisterAnnotation name) name LangBinding.default anns with
+  match parseAttributes attrs with
   | .error e => .error e
-  | .ok slot =>
-    let slot := applyOverrides attr slot
-    if attr.bindless then .error (.cbufferBindless name) else .ok slot
+  | .ok attr =>
+    match annotate (some .B) (.unexpectedRegisterAnnotation name) name LangBinding.default anns with
+    | .error e => .error e
+    | .ok slot =>
+      let slot := applyOverrides attr slot
+      -- "A constant buffer block can not be bindless so the attribute has no meaning here"
+      if attr.bindless then .error (.attributeUnknown "bindless") else .ok slot
 
 /-! ## A whole file: root definitions in source order -/
 
@@ -189,8 +245,8 @@ inductive RootItem where
   /-- struct / function / …: a root definition that is never bound -/
   | other (name : String)
   | cbuffer (name : String) (attrs : List Attr) (annotations : List Annotation)
-  /-- one global-variable declaration: attributes, base type, storage class, declarators -/
-  | globals (attrs : List Attr) (base : Option ObjKind) (isExtern : Bool) (ds : List (Declarator Shape))
+  /-- one global-variable declaration: attributes, base type, storage-class keywords, declarators -/
+  | globals (attrs : List Attr) (base : Option ObjKind) (mods : List StorageMod) (ds : List (Declarator Shape))
   deriving Repr
 
 /-- what the slot allocator sees of a global (`Model.Slots.Decl`): only an `Extern` global whose type peels to an
@@ -211,10 +267,14 @@ def frontItems : List RootItem → Except FrontErr (List (String × Decl))
         match parseConstantBuffer n attrs anns with
         | .error e => .error e
         | .ok slot => .ok [(n, .cbuffer slot.set)]
-      | .globals attrs base isExtern ds =>
-        match parseGlobalVariable attrs base isExtern [] ds with
+      | .globals attrs base mods ds =>
+        -- `parse_globaltype` (storage class) comes first, then the attributes, then the declarators
+        match isExternStorage mods with
         | .error e => .error e
-        | .ok gs => .ok (gs.map fun g => (g.name, g.toDecl base isExtern))
+        | .ok isExtern =>
+          match parseGlobalVariable attrs base isExtern [] ds with
+          | .error e => .error e
+          | .ok gs => .ok (gs.map fun g => (g.name, g.toDecl base isExtern))
     match here with
     | .error e => .error e
     | .ok xs =>
